@@ -54,6 +54,7 @@ def concretize(v, model, depth=0):
         n = max(0, min(int(n), 4096))
         out = [concretize(seqs.seq_get(v, i)[0], model) for i in range(n)]
         if v.kind in ("bytes", "bytearray"):
+            out = [x % 256 if isinstance(x, int) else x for x in out]    # unread elements are unconstrained in the model
             try:
                 return bytes(out)
             except (ValueError, TypeError):
@@ -261,7 +262,28 @@ def verify_contract(con, contracts, tier="quick", externals=None):
         if cov == z3.unsat:
             res.error, res.error_kind = "precondition unsatisfiable (vacuous contract)", "crash"
             return res
-        outcomes = E.exec_block(con.node.body, st)
+        main_fv = FuncV(con.node, con.mod, cls=con.clsnode, qual=con.short)
+        deco = E.decorated(main_fv, st) if con.clsnode is not None or con.node.decorator_list else main_fv
+        if deco is not main_fv:
+            # the function under contract is wrapped by behavioural decorators: verify what runs
+            a = con.node.args
+            pos = [env[p.arg] for p in a.posonlyargs + a.args]
+            E.fn_stack = [None]
+            st_call = State(dict(env), st.pc, None, st.trace, st.rand, st.ghost)
+            fake = ast.Call(func=ast.Name(id="__main__", ctx=ast.Load()),
+                            args=[ast.Name(id=p.arg, ctx=ast.Load()) for p in a.posonlyargs + a.args], keywords=[])
+            ast.fix_missing_locations(fake)
+            outs = E.call_function(deco, pos, {p.arg: env[p.arg] for p in a.kwonlyargs}, st_call, fake)
+            outcomes = []
+            for s_o, v_o in outs:
+                s_o = s_o.copy()
+                # the final value of `self` is what the wrapper's own parameter ended with
+                if isinstance(v_o, Raised):
+                    outcomes.append(("raise", s_o, v_o.exc))
+                else:
+                    outcomes.append(("return", s_o, v_o))
+        else:
+            outcomes = E.exec_block(con.node.body, st)
         res.paths = len(outcomes)
         n_ret = 0
         reach = {"return": 0, "raise": 0}
